@@ -89,6 +89,15 @@ def run_history(rac, ops, follow=True):
                          G.history_script(done, IDX_TAIL), "Manager.unregister")
                 return True
             w.m.verify()
+            # a removed definition no longer acts: right after a replacement the data are what the surviving definitions give
+            if op[0] in ("val", "expr", "unreg") and not (orc.sibling_feed() or G.declared_cycle(w.m)):
+                exp, act = orc.expected(), w.actual()
+                badv = [(G.locstr(l), act[l], exp[l]) for l in G.LOCS if not G.close(exp[l], act[l])]
+                if badv:
+                    rac.fail("history " + hist, f"C03 after [{hist}]: {badv[0][0]} = {badv[0][1]!r}, the surviving definitions give {badv[0][2]!r} "
+                             "(a removed definition still acted)", G.history_script(done, IDX_TAIL + f"assert {exp[[l for l in G.LOCS if G.locstr(l) == badv[0][0]][0]]!r} == "
+                             + badv[0][0] + ", " + badv[0][0] + "\n"), "Manager.set_value")
+                    return True
         except Exception as ex:          # noqa
             rac.fail("history " + hist, f"C03 after [{hist}]: raised {type(ex).__name__}: {ex}",
                      G.history_script(done, IDX_TAIL), "Manager.unregister")
